@@ -78,6 +78,7 @@ pub struct LayoutStats {
     pub section_residues: Vec<u64>,
     pub cut_offsets_in_value: Vec<u64>,
     pub all_empty_data_packets: u64,
+    pub pages_of_leading_non_data: bool,
     pub max_packet_len: u64,
     pub max_stream_len_in_packet: u64,
 }
@@ -335,6 +336,21 @@ fn cv_section(pc: &PcRead, layout: &Layout, r: &mut Rng, stats: &mut LayoutStats
     if nd && r.chance(1, 3) {
         non_data(&mut bytes, r, &mut patches, &mut index_rel, &data_packet_rels, stats);
         stats.non_data_first = true;
+        if r.chance(1, 4) {
+            // several pages of ignored packets between the section header and the first data packet
+            let k = 2 + r.usize_below(9);
+            for _ in 0..k {
+                let words = 64 + r.usize_below(200);
+                let mut p = vec![0u8; 4 * words];
+                p[0] = 2;
+                r.fill(&mut p[4..]);
+                let l = (p.len() - 1) as u16;
+                p[2..4].copy_from_slice(&l.to_le_bytes());
+                bytes.extend_from_slice(&p);
+                stats.ignored_packets += 1;
+            }
+            stats.pages_of_leading_non_data = true;
+        }
     }
     for (k, pk) in packets.iter().enumerate() {
         let chunks: Vec<&[u8]> = (0..n).map(|i| &streams[i][pk[i].0..pk[i].1]).collect();
@@ -413,6 +429,29 @@ fn esc_attr(v: &str, q: char) -> String {
 }
 
 impl<'a> X<'a> {
+    /// Reorder the child segments emitted since `start` (segment ends in `marks`): the children of
+    /// an E57 Structure are found by name, their order is free.
+    fn shuffle_children(&mut self, start: usize, marks: &[usize]) {
+        if !self.lexical || marks.len() < 2 || !self.r.chance(1, 2) {
+            return;
+        }
+        let mut segs: Vec<String> = Vec::new();
+        let mut from = start;
+        for m in marks {
+            segs.push(self.out[from..*m].to_string());
+            from = *m;
+        }
+        let tail = self.out[from..].to_string();
+        for i in (1..segs.len()).rev() {
+            let j = self.r.usize_below(i + 1);
+            segs.swap(i, j);
+        }
+        self.out.truncate(start);
+        for s in segs {
+            self.out.push_str(&s);
+        }
+        self.out.push_str(&tail);
+    }
     fn sep(&mut self) {
         if !self.lexical {
             self.out.push('\n');
@@ -628,26 +667,38 @@ fn xml_for(scene: &EncScene, layout: &Layout, r: &mut Rng, cv_off: &[u64], rep_o
     }
     root_attrs.push(("xmlns", E57_NS.into()));
     x.open("e57Root", &root_attrs);
+    let root_start = x.out.len();
+    let mut root_marks: Vec<usize> = Vec::new();
     x.string("formatName", FORMAT_NAME);
+    root_marks.push(x.out.len());
     x.string("guid", &f.guid);
+    root_marks.push(x.out.len());
     x.int("versionMajor", 1);
+    root_marks.push(x.out.len());
     x.int("versionMinor", 0);
+    root_marks.push(x.out.len());
     if let Some(v) = &f.library_version {
         x.string("e57LibraryVersion", v);
+        root_marks.push(x.out.len());
     }
     if let Some(v) = &f.coord_meta {
         x.string("coordinateMetadata", v);
+        root_marks.push(x.out.len());
     }
     if let Some(d) = &f.creation {
         x.date_time("creationDateTime", d);
+        root_marks.push(x.out.len());
     }
     let skip_empty_vectors = x.lexical && x.r.chance(1, 3);
     if !(f.pcs.is_empty() && skip_empty_vectors) {
         x.open("data3D", &[("type", "Vector".into()), ("allowHeterogeneousChildren", "1".into())]);
         for (i, pc) in f.pcs.iter().enumerate() {
             x.open("vectorChild", &[("type", "Structure".into())]);
+            let pc_start = x.out.len();
+            let mut pc_marks: Vec<usize> = Vec::new();
             if let Some(g) = &pc.guid {
                 x.string("guid", g);
+                pc_marks.push(x.out.len());
             }
             let m = &pc.meta;
             // element order inside a structure is free: two orders
@@ -666,6 +717,7 @@ fn xml_for(scene: &EncScene, layout: &Layout, r: &mut Rng, cv_off: &[u64], rep_o
             };
             if !late_points {
                 points(&mut x, pc);
+                pc_marks.push(x.out.len());
             }
             if let Some(v) = &m.original_guids {
                 x.open("originalGuids", &[("type", "Vector".into()), ("allowHeterogeneousChildren", "0".into())]);
@@ -673,6 +725,7 @@ fn xml_for(scene: &EncScene, layout: &Layout, r: &mut Rng, cv_off: &[u64], rep_o
                     x.string("vectorChild", g);
                 }
                 x.close("originalGuids");
+                pc_marks.push(x.out.len());
             }
             if let Some(b) = &pc.bounds.cartesian {
                 x.open("cartesianBounds", &[("type", "Structure".into())]);
@@ -682,6 +735,7 @@ fn xml_for(scene: &EncScene, layout: &Layout, r: &mut Rng, cv_off: &[u64], rep_o
                     }
                 }
                 x.close("cartesianBounds");
+                pc_marks.push(x.out.len());
             }
             if let Some(b) = &pc.bounds.spherical {
                 x.open("sphericalBounds", &[("type", "Structure".into())]);
@@ -691,6 +745,7 @@ fn xml_for(scene: &EncScene, layout: &Layout, r: &mut Rng, cv_off: &[u64], rep_o
                     }
                 }
                 x.close("sphericalBounds");
+                pc_marks.push(x.out.len());
             }
             if let Some(b) = &pc.bounds.index {
                 x.open("indexBounds", &[("type", "Structure".into())]);
@@ -700,6 +755,7 @@ fn xml_for(scene: &EncScene, layout: &Layout, r: &mut Rng, cv_off: &[u64], rep_o
                     }
                 }
                 x.close("indexBounds");
+                pc_marks.push(x.out.len());
             }
             if let Some(l) = &m.color_limits {
                 x.open("colorLimits", &[("type", "Structure".into())]);
@@ -709,6 +765,7 @@ fn xml_for(scene: &EncScene, layout: &Layout, r: &mut Rng, cv_off: &[u64], rep_o
                     }
                 }
                 x.close("colorLimits");
+                pc_marks.push(x.out.len());
             }
             if let Some(l) = &m.intensity_limits {
                 x.open("intensityLimits", &[("type", "Structure".into())]);
@@ -719,6 +776,7 @@ fn xml_for(scene: &EncScene, layout: &Layout, r: &mut Rng, cv_off: &[u64], rep_o
                     x.limit("intensityMaximum", v);
                 }
                 x.close("intensityLimits");
+                pc_marks.push(x.out.len());
             }
             for (n, v) in [
                 ("name", &m.name),
@@ -732,28 +790,36 @@ fn xml_for(scene: &EncScene, layout: &Layout, r: &mut Rng, cv_off: &[u64], rep_o
             ] {
                 if let Some(v) = v {
                     x.string(n, v);
+                    pc_marks.push(x.out.len());
                 }
             }
             if let Some(t) = &m.transform {
                 x.pose(t);
+                pc_marks.push(x.out.len());
             }
             if let Some(d) = &m.acq_start {
                 x.date_time("acquisitionStart", d);
+                pc_marks.push(x.out.len());
             }
             if let Some(d) = &m.acq_end {
                 x.date_time("acquisitionEnd", d);
+                pc_marks.push(x.out.len());
             }
             for (n, v) in [("temperature", &m.temperature), ("relativeHumidity", &m.humidity), ("atmosphericPressure", &m.pressure)] {
                 if let Some(v) = v {
                     x.float(n, v.f());
+                    pc_marks.push(x.out.len());
                 }
             }
             if late_points {
                 points(&mut x, pc);
+                pc_marks.push(x.out.len());
             }
+            x.shuffle_children(pc_start, &pc_marks);
             x.close("vectorChild");
         }
         x.close("data3D");
+        root_marks.push(x.out.len());
     }
     if !(f.images.is_empty() && skip_empty_vectors) {
         x.open("images2D", &[("type", "Vector".into()), ("allowHeterogeneousChildren", "1".into())]);
@@ -810,7 +876,9 @@ fn xml_for(scene: &EncScene, layout: &Layout, r: &mut Rng, cv_off: &[u64], rep_o
             x.close("vectorChild");
         }
         x.close("images2D");
+        root_marks.push(x.out.len());
     }
+    x.shuffle_children(root_start, &root_marks);
     x.out.push_str("</e57Root>");
     if !(x.lexical && x.r.chance(1, 2)) {
         x.out.push('\n');
